@@ -3,4 +3,5 @@ CONSTANT NoCollapseRun = TRUE
 CONSTANT Depth = 2
 CONSTANT NFree = 12
 INVARIANT ManifoldIffNoSharedAmbiguous
+INVARIANT Outward
 CHECK_DEADLOCK FALSE
